@@ -94,6 +94,12 @@ func ctxFromParam(v ssa.Value, d int) bool {
 		case *ssa.Extract:
 			if call, _ := callOf(x); call != nil {
 				if g := call.Call.StaticCallee(); g != nil && g.Pkg != nil && g.Pkg.Pkg.Path() == "context" && strings.HasPrefix(g.Name(), "With") {
+					// the lifetime context of a goroutine: made cancellable by the function that spawns the literal v is used in
+					if root, _ := callOf(call.Call.Args[0]); root != nil && v.Parent() != nil && v.Parent() != call.Parent() && enclosedBy(v.Parent(), call.Parent()) {
+						if rg := root.Call.StaticCallee(); rg != nil && rg.Pkg != nil && rg.Pkg.Pkg.Path() == "context" && rg.Name() == "Background" {
+							continue
+						}
+					}
 					if !ctxFromParam(call.Call.Args[0], d+1) {
 						ok = false
 					}
